@@ -713,7 +713,9 @@ func (c *Conn) WriteMessage(messageType MessageType, data []byte) error {
 		sendCompress := compress
 		for len(data) > 0 {
 			n := len(data)
-			if n > c.Engine.MaxWebsocketFramePayloadSize {
+			// control frames (<= 125 bytes) must not be fragmented.
+			if n > c.Engine.MaxWebsocketFramePayloadSize &&
+				(messageType == TextMessage || messageType == BinaryMessage || messageType == FragmentMessage) {
 				n = c.Engine.MaxWebsocketFramePayloadSize
 			}
 			err := c.writeFrame(messageType, sendOpcode, n == len(data), data[:n], sendCompress)
